@@ -95,3 +95,25 @@ def run(cx):
     from .. import rules_a as A
     _run_curve(cx)
     A.a_curve(cx, 'A-CURVE', 'sm9', 10)
+
+
+_run_pow = run
+
+
+def run(cx):
+    from .. import rules_s as S
+    _run_pow(cx)
+    # I-POW: the square-and-multiply loops cannot skip a limb, a bit or a squaring
+    for q in ('<impl fields::fp12::Fp12>::pow','gm_sm9::fields::fp::fp_pow','gm_sm9::fields::mod_n_pow',):
+        S.square_multiply(cx, 'I-POW', q)
+
+
+_run_poly = run
+
+
+def run(cx):
+    from .. import rules_poly as RPL
+    _run_poly(cx)
+    # A-POLY: tower functions and Jacobian formulas equal their defining formulas as rational functions
+    RPL.a_poly(cx, 'A-POLY', 39)
+    RPL.a_poly_curve(cx, 'A-POLY', 'gm_sm9', 8)
